@@ -398,11 +398,62 @@ def run_history(ops, initial=(), parallel=False, via_composite=False):
             tree_tpl[loc] = comp['tpl']
         if exc is not None:
             break
+    # (a plain port wired into a compartment that has been deleted would re-create
+    #  it in a rebuilt engine: no rebuild comparison in that case)
+    dangling = watch and 'a' not in recs[-1]['obs']['tree']['agents']
+    if recs[-1].get('exc') is not True and not parallel and not dangling:
+        recs.append(rebuild_record(eng, ids))
     try:
         eng.end()
     except Exception:
         pass
     return recs, eng
+
+
+def vars_only(value):
+    if isinstance(value, dict):
+        return {k: vars_only(v) for k, v in value.items()
+                if not (isinstance(v, tuple) and v and isinstance(v[0], Process))}
+    return value
+
+
+def comparable(obs, cnt_offset=0):
+    o = {k: obs[k] for k in ('leaves', 'eprocs', 'esteps', 'eseq', 'deps', 'pubP', 'pubS',
+                             'pubF', 'pubT', 'hierP', 'hierS', 'hierF')}
+    # the order in which independent derivers are registered follows the history in
+    # one engine and the dictionary order of the published composite in the other
+    o['eseq'] = sorted(o['eseq'])
+    o['tree'] = {b: {k: {'tpl': c['tpl'], 'x': c['x'],
+                         'cnt': {s: n - cnt_offset for s, n in c['cnt'].items()}}
+                     for k, c in comps.items()} for b, comps in obs['tree'].items()}
+    return o
+
+
+def rebuild_record(eng, ids):
+    """C10, last clause: a new engine built from the published composite and the
+    current (variables-only) state continues identically.  Both engines are run two
+    more ticks; the rebuilt one has run its constructor's step phase once more."""
+    from vivarium.library.dict_utils import deep_copy_internal
+    rec = {'ev': 'rebuild', 'same': False, 'exc': '', 'diff': ''}
+    try:
+        with contextlib.redirect_stdout(io.StringIO()):
+            new = Engine(processes=deep_copy_internal(eng.processes),
+                         steps=deep_copy_internal(eng.steps),
+                         flow=copy.deepcopy(eng.flow), topology=copy.deepcopy(eng.topology),
+                         initial_state=vars_only(eng.state.get_value()),
+                         display_info=False, emitter='null')
+            for _ in range(2):
+                eng.update(1)
+                new.update(1)
+        a, _ids = project(eng, {})
+        b, _ids = project(new, {})
+        ca, cb = comparable(a), comparable(b, 1)
+        rec['same'] = ca == cb
+        if not rec['same']:
+            rec['diff'] = ', '.join(k for k in ca if ca[k] != cb[k])
+    except Exception as e:
+        rec['exc'] = '%s: %s' % (type(e).__name__, str(e)[:200])
+    return rec
 
 
 # ------------------------------------------------------------- generators
